@@ -231,22 +231,31 @@ func ruleLogKinds(c *core.Ctx) {
 	// FromString: string -> const
 	fromStr := map[string]string{}
 	if d := fn(c, pkgCore, "", "LogTypeFromString"); d != nil {
-		ast.Inspect(d.Decl.Body, func(n ast.Node) bool {
-			cc, ok := n.(*ast.CaseClause)
-			if !ok {
-				return true
+		// the table may live in a helper the exported function delegates to (depth 1)
+		bodies := []*ast.BlockStmt{d.Decl.Body}
+		for _, call := range callsTo(info, d.Decl.Body, func(f *types.Func) bool { return f.Pkg() != nil && f.Pkg().Path() == load.Module+"/"+pkgCore }) {
+			if hd := index(c).Decls[astx.Callee(info, call)]; hd != nil && hd.Decl.Body != nil {
+				bodies = append(bodies, hd.Decl.Body)
 			}
-			for _, e := range cc.List {
-				if s, ok := astx.ConstString(info, e); ok && len(cc.Body) == 1 {
-					if r, ok := cc.Body[0].(*ast.ReturnStmt); ok && len(r.Results) == 1 {
-						if id, ok := r.Results[0].(*ast.Ident); ok {
-							fromStr[s] = id.Name
+		}
+		for _, body := range bodies {
+			ast.Inspect(body, func(n ast.Node) bool {
+				cc, ok := n.(*ast.CaseClause)
+				if !ok {
+					return true
+				}
+				for _, e := range cc.List {
+					if s, ok := astx.ConstString(info, e); ok && len(cc.Body) == 1 {
+						if r, ok := cc.Body[0].(*ast.ReturnStmt); ok && len(r.Results) >= 1 {
+							if id, ok := r.Results[0].(*ast.Ident); ok {
+								fromStr[s] = id.Name
+							}
 						}
 					}
 				}
-			}
-			return true
-		})
+				return true
+			})
+		}
 	}
 	// HydrateLog: const -> payload type
 	hyd := map[string]string{}
